@@ -945,17 +945,25 @@ def record_violation(msg, m):
                                    path=[t[0] for t in CTX.trail[:CTX.pos]]))
 
 
+_ALARM = {"armed": False}
+
+
 def _alarm(seconds):
     import signal
     if seconds and hasattr(signal, "setitimer"):
         def h(sig, frm):
-            raise PathTimeout()
+            if _ALARM["armed"]:
+                raise PathTimeout()
         signal.signal(signal.SIGALRM, h)
-        signal.setitimer(signal.ITIMER_REAL, seconds)
+        _ALARM["armed"] = True
+        # periodic after the first expiry: an exception raised while the interpreter happens to be inside a __del__ (z3 proxies are
+        # freed at a high rate) is swallowed as "Exception ignored", and a one-shot timer would then never fire again
+        signal.setitimer(signal.ITIMER_REAL, seconds, 2.0)
 
 
 def _alarm_off():
     import signal
+    _ALARM["armed"] = False
     if hasattr(signal, "setitimer"):
         signal.setitimer(signal.ITIMER_REAL, 0)
 
